@@ -170,6 +170,9 @@ class Conn:
         msg.pop("server_rx", None)
         if msg["type"] == "welcome":
             msg["welcome"].update(self.world.cfg.get("welcome", {}))
+            if self.gen >= 2:
+                # (welcome_later) what the server says at the start of a *re*connection, e.g. an operator who retired it meanwhile
+                msg["welcome"].update(self.world.cfg.get("welcome_later", {}))
         self.down.append(msg)
 
 
